@@ -181,6 +181,36 @@ def build():
     defs.append(("isans_qd_reject", "N -> N -> bool", "fun aqd rqd => " + cmp_fn(m.group(1), "aqd", "rqd")))
     defs.append(("isans_q_equal", "bool", "true" if m.group(2) == "==" else "false"))
 
+    # ---- RequestMessageMulti::is_answer: same tests plus the AXFR empty-question rule
+    im = fn_body(rq, "is_answer", after="ComposeRequestMulti\n    for RequestMessageMulti<Octs>")
+    m2 = one(r"if\s+(!?)answer_header\.qr\(\)\s*\|\|\s*answer_header\.id\(\)\s*" + OP + r"\s*self\.header\.id\(\)\s*\{", im, "multi is_answer QR/ID rejection")
+    m1 = one(r"if\s+(!?)answer_header\.qr\(\)\s*\|\|\s*answer_header\.id\(\)\s*" + OP + r"\s*self\.header\.id\(\)\s*\{", ia_, "is_answer QR/ID rejection")
+    if m1.groups() != m2.groups():
+        raise GenError("single and multi is_answer differ in the QR/ID test")
+    one(r"if\s+answer_header\.rcode\(\)\s*!=\s*Rcode::NOERROR\s*&&\s*answer_hcounts\.qdcount\(\)\s*==\s*0\s*&&\s*answer_hcounts\.ancount\(\)\s*==\s*0\s*"
+        r"&&\s*answer_hcounts\.nscount\(\)\s*==\s*0\s*&&\s*answer_hcounts\.arcount\(\)\s*==\s*0\s*\{\s*return\s+true;\s*\}", im, "multi is_answer header-only rule")
+    if not re.search(r"rcode\(\)\s*!=\s*Rcode::NOERROR", ia_):
+        raise GenError("single is_answer header-only rule differs from the multi one")
+    one(r"if\s+self\.msg\.qtype\(\)\s*==\s*Some\(Rtype::AXFR\)\s*&&\s*answer_hcounts\.qdcount\(\)\s*==\s*0\s*\{\s*true\s*\}\s*else\s+if\s+answer_hcounts\.qdcount\(\)\s*!=\s*self\.msg\.header_counts\(\)\.qdcount\(\)\s*\{[^{}]*\bfalse\s*\}\s*else\s*\{\s*let\s+res\s*=\s*answer\.question\(\)\s*==\s*self\.msg\.for_slice\(\)\.question\(\);",
+        im, "multi is_answer AXFR rule and question comparison")
+    defs.append(("multi_axfr_rule", "bool", "true"))
+
+    # ---- check_stream anchors (the transcription itself is tied by the demux T2)
+    cs = fn_body(st, "check_stream")
+    ret_err = r"xfr_state\s*=\s*XFRState::Error;\s*return\s*\(false,\s*xfr_state,\s*false\);"
+    one(r"XFRState::AXFRInit\s*\|\s*XFRState::IXFRInit\s*=>\s*\{\s*if\s+!msg\.is_answer\(answer\.for_slice\(\)\)\s*\{\s*" + ret_err + r"\s*\}\s*\}", cs, "check_stream first-response check")
+    one(r"XFRState::Done\s*=>\s*\{\s*" + ret_err + r"\s*\}\s*XFRState::Error\s*=>\s*\{\s*return\s*\(false,\s*xfr_state,\s*false\);\s*\}", cs, "check_stream Done/Error on entry")
+    one(r"if\s+answer\.header\(\)\.rcode\(\)\s*!=\s*Rcode::NOERROR\s*\{\s*if\s+!msg\.is_answer\(answer\.for_slice\(\)\)\s*\{\s*" + ret_err + r"\s*\}\s*return\s*\(true,\s*xfr_state,\s*true\);\s*\}", cs, "check_stream error response")
+    if len(re.findall(r"if\s+serial\s*==\s*soa\.serial\(\)\s*\{\s*xfr_state\s*=\s*XFRState::Done;\s*continue;\s*\}", cs)) != 3:
+        raise GenError("check_stream: expected three serial comparisons that end the transfer")
+    if len(re.findall(r"xfr_state\s*=\s*XFRState::Error;\s*return\s*\(true,\s*xfr_state,\s*false\);", cs)) != 2:
+        raise GenError("check_stream: expected two parse-error returns (true, Error, false)")
+    one(r"XFRState::IXFRFirstSoa\(_\)\s*=>\s*\{\s*xfr_state\s*=\s*XFRState::Done;\s*return\s*\(true,\s*xfr_state,\s*true\);\s*\}\s*XFRState::Done\s*=>\s*return\s*\(true,\s*xfr_state,\s*true\),", cs, "check_stream final states")
+    one(r"\(false,\s*xfr_state,\s*true\)\s*$", cs, "check_stream continues the stream")
+    one(r"xfr_state\s*=\s*XFRState::AXFRFirstSoa\(serial\);\s*\}\s*XFRState::IXFRFirstDiffSoa", cs, "check_stream IXFR falls back to AXFR format")
+    defs.append(("check_stream_anchored", "bool", "true"))
+    one(r"if\s+qtype\s*==\s*Rtype::AXFR\s*\{\s*Some\(XFRState::AXFRInit\)\s*\}\s*else\s+if\s+qtype\s*==\s*Rtype::IXFR\s*\{\s*Some\(XFRState::IXFRInit\)\s*\}", irq, "insert_req initial XFR state")
+
     # ---- Message::is_answer (base) - same shape without the header-only rule
     bm = strip_comments(read("src/base/message.rs"))
     mi = fn_body(bm, "is_answer")
